@@ -385,6 +385,9 @@ func refOpenEnc(msg []byte, sk []byte) (*refOpened, error) {
 		b := boxZeros(sk, eph, hashNonce(hh, true, uint64(o.rcptIndex)))
 		macKey = sha(a, b)[:32]
 	}
+	if refHeaderOnly {
+		return o, nil
+	}
 	done := false
 	for n := 0; len(rest) > 0; n++ {
 		if done {
